@@ -1,7 +1,8 @@
 (** Correspondence evaluator for C16.  Two case families:
     kind 0 - one ACL, one token, a list of requests sent through the real echo stack; observed per request:
              outcome class and the route pattern the router selected (plus the whole route table for sweeps);
-    kind 1 - a history of security-management operations, then a restart; observed: registry and ACL store
+    kind 1 - a history of security-management operations (client ids in the ACL routes given by their spelling in
+             the URL: [rid sp]), then a restart; observed: registry and ACL store
              before and after the restart, and the outcome of requests sent after it;
     kind 3 - one token string with an exp (or nbf) a second or two ahead, the same requests sent before and after
              that instant through the same process; observed per request: class, route, and on which side of the
@@ -9,7 +10,7 @@
     kind 2 - GET /datasets as the caller; observed: outcome class and the dataset names returned, next to the
              complete list the admin gets. *)
 From Coq Require Import List String Ascii Bool NArith.
-From DH Require Export Lib.CheckLib Model.Acl Model.Jwt Model.Gate Model.SecStore Model.GateSeq.
+From DH Require Export Lib.CheckLib Model.Acl Model.Jwt Model.Gate Model.SecStore Model.GateSeq Model.IdCodec.
 Import ListNotations.
 Open Scope string_scope.
 
@@ -37,6 +38,7 @@ Record tcase := {
   o_list : treq;                  (* kind 2: class and route of that request *)
   c_exp : option N;               (* kind 3: exp / nbf of the case's token, in model instants *)
   c_nbf : option N;
+  o_gets : list (string * option (list ac));   (* kind 1: GET /security/clients/<spelling>/acl after the restart *)
   c_seq : list (N * treq)         (* kind 3: requests in the order sent through one process, with the instant the
                                      driver's clock put them at (0 = before the token's boundary, 10 = after) *)
 }.
@@ -123,6 +125,10 @@ Fixpoint forall2b {A B} (f : A -> B -> bool) (l1 : list A) (l2 : list B) : bool 
 Definition seq_agrees (v : variant) (c : tcase) : bool :=
   forall2b answer_agrees (gate_run CacheNone v (tworld_of c) (map (rq_of c) (c_seq c))) (map snd (c_seq c)).
 
+(** GET through a spelling shows the entries of the id the spelling denotes *)
+Definition gets_agree (s : secstate) (gets : list (string * option (list ac))) : bool :=
+  forallb (fun g => opt_acl_eqb (lookup (rid (fst g)) (mem_acls s)) (snd g)) gets.
+
 Definition agree (cv : cvariant) (c : tcase) : bool :=
   if N.eqb (c_kind c) 3 then seq_agrees (cv_gate cv) c
   else if N.eqb (c_kind c) 0 then
@@ -135,6 +141,7 @@ Definition agree (cv : cvariant) (c : tcase) : bool :=
     let s := sec_run (cv_file cv) (cv_init cv) (c_ops c) in
     let s' := restart (cv_init cv) s in
     snapshot_agrees s (o_before c) && snapshot_agrees s' (o_after c)
+    && gets_agree s' (o_gets c)
     && forallb (req_agrees (cv_gate cv) (world_of c (fun k => lookup k (mem_acls s'))) (c_auth c)) (c_reqs c).
 
 (** ** the executable spec, evaluated on the implementation's observations only *)
@@ -165,8 +172,12 @@ Definition spec_ok (c : tcase) : bool :=
     req_spec_ok (world_of c (acls_kind0 c)) (c_auth c) (o_list c)
     && (if N.eqb (q_class (o_list c)) 0 then list_spec_ok c else true)
   else
-    snapshot_eqb (o_before c) (o_after c)
-    && forallb (req_spec_ok (world_of c (fun k => lookup k (sn_acls (o_before c)))) (c_auth c)) (c_reqs c).
+    (* the registry and ACL store are what the history denotes, before and after the restart, and whoever is
+       served afterwards is authorized by that store *)
+    let sp := spec_state (c_ops c) in
+    snapshot_agrees sp (o_before c) && snapshot_agrees sp (o_after c)
+    && gets_agree sp (o_gets c)
+    && forallb (req_spec_ok (world_of c (fun k => lookup k (mem_acls sp))) (c_auth c)) (c_reqs c).
 
 (** [mismatches per variant (32, in the order of all_variants) ...; spec failures on I].
     ([if] instead of [&&]: vm_compute is call-by-value, [andb] would evaluate both sides.)
